@@ -287,8 +287,7 @@ def results_wellformed(nproc: int = 8, known_only: bool = False):
         bad = [(l, f, k, ill) for l, f, k, s, c, ill in res if ill]
     else:
         tasks = [(label, fn, kw) for label in START for fn, kw in functions()]
-        with mp.Pool(nproc) as pool:
-            res = pool.map(_task, tasks, chunksize=4)
+        res = _pooled(tasks, nproc)
         bad = [(l, f, k, ill) for l, f, k, s, c, ill in res if ill and not _is_known(l, f, ill)]
     if bad:
         raise AssertionError('ill-formed model returned by: ' + '; '.join(f'{f}({k}) on {l}: {i}' for l, f, k, i in bad[:6]))
@@ -316,10 +315,25 @@ def start_model(label):  # noqa: F811
     return _start_model_plain(label)
 
 
+def _pooled(tasks, nproc):
+    """run the tasks in a pool; every temporary directory of the workers lives under one root that is removed here
+    (terminated pool workers do not run their atexit handlers)"""
+    import shutil
+    import tempfile
+    root = tempfile.mkdtemp(prefix='c06root_')
+    old = tempfile.tempdir
+    tempfile.tempdir = root
+    try:
+        with mp.Pool(nproc) as pool:
+            return pool.map(_task, tasks, chunksize=4)
+    finally:
+        tempfile.tempdir = old
+        shutil.rmtree(root, ignore_errors=True)
+
+
 def no_mutation(nproc: int = 8):
     tasks = [(label, fn, kw) for label in START + list(DERIVED) for fn, kw in functions()]
-    with mp.Pool(nproc) as pool:
-        res = pool.map(_task, tasks, chunksize=4)
+    res = _pooled(tasks, nproc)
     bad = [(l, f, k, c) for l, f, k, s, c, _ in res if c]
     called = sum(1 for r in res if r[3] == 'ok')
     if called < 300:
